@@ -137,7 +137,22 @@ func main() {
 	stdouts = append(stdouts,
 		stdoutV{"wrong-name", false, func(string) string { return metaJSON("someone-else", "", "1.0") }, 0},
 		stdoutV{"wrong-contract", false, func(string) string { return metaJSON(name, "", "2.0") }, 0},
-		stdoutV{"null", false, func(string) string { return "null" }, 0})
+		stdoutV{"null", false, func(string) string { return "null" }, 0},
+		// a complete, well-shaped reply followed by more output is not a JSON reply
+		stdoutV{"valid-then-second-document", false, func(c string) string {
+			v := validReply[c]
+			if c == "get-plugin-metadata" {
+				v = metaJSON(name, "", "1.0")
+			}
+			return v + "\n{\"errorCode\":\"ERROR\",\"errorMessage\":\"late failure\"}"
+		}, 0},
+		stdoutV{"valid-then-log-line", false, func(c string) string {
+			v := validReply[c]
+			if c == "get-plugin-metadata" {
+				v = metaJSON(name, "", "1.0")
+			}
+			return v + "\nwarning: something was written to stdout"
+		}, 0})
 	type stderrV struct {
 		kind string
 		text string
